@@ -165,18 +165,17 @@ Proof.
            order_range smul_zero pt_eqb_spec sec_len sec_head unsec_sec fuel_pos (row_net r) nd ap (table_nets_ok r Hr)).
 Qed.
 
-(* text level: holds for every row whose printer and parser use the same checksum function *)
-Theorem C09_text_roundtrip_partial : forall r (nd : node) (ap : bool),
-  In r bip_prefix_table -> codec_mismatch (row_net r) = false ->
-  wf nd -> ser_ok pt nd -> (ap = true -> nd_secret pt nd <> None) ->
+(* text level, every row: printer and parser of every network use the same checksum function (table fact) *)
+Theorem C09_text_roundtrip : forall r (nd : node) (ap : bool),
+  In r bip_prefix_table -> wf nd -> ser_ok pt nd -> (ap = true -> nd_secret pt nd <> None) ->
   exists text, hwif pt sec b58enc (row_net r) nd ap = Ret text /\
     hparse pt pO smul pG order pt_eqb unsec b58dec (row_net r) ap text = Ret (Some (shown pt nd ap)) /\
     hparse pt pO smul pG order pt_eqb unsec b58dec (row_net r) (negb ap) text = Ret None /\
     parse_hd pt pO smul pG order pt_eqb unsec b58dec (row_net r) text = Ret (Some (shown pt nd ap)).
 Proof.
-  exact (fun r nd ap Hr Hc => hwif_roundtrip_text pt padd pO smul pG order pt_eqb sec unsec hmac512 hash160 b58enc b58dec loop_fuel
+  exact (fun r nd ap Hr => hwif_roundtrip_text pt padd pO smul pG order pt_eqb sec unsec hmac512 hash160 b58enc b58dec loop_fuel
            order_range smul_zero pt_eqb_spec sec_len sec_head unsec_sec fuel_pos b58_roundtrip (row_net r) nd ap
-           (table_nets_ok r Hr) (proj1 (N.eqb_eq _ _) (proj1 (negb_false_iff _) Hc))).
+           (table_nets_ok r Hr) (proj1 (N.eqb_eq _ _) (proj1 (negb_false_iff _) (table_codecs_match r Hr)))).
 Qed.
 
 (* ---- C09_cache_transparent: every call of every history returns what the uncached code returns ---- *)
@@ -243,37 +242,9 @@ Proof. exact (fun ls t => conj (in_product ls t) (product_length ls)). Qed.
 Theorem C09_range_members : forall lo hi t, In t (zrange_list lo hi) <-> lo <= t <= hi.
 Proof. exact zrange_list_spec. Qed.
 
-(* ---- the full text statement, its refutation on the current table, and what is excluded ---- *)
-Definition C09_text_roundtrip_statement : Prop :=
-  forall (pt : Type) (pO : pt) (smul : Z -> pt -> pt) (pG : pt) (order : Z) (pt_eqb : pt -> pt -> bool) (sec : pt -> bytes)
-         (unsec : bytes -> outcome pt) (b58enc : N -> bytes -> bytes) (b58dec : N -> bytes -> option bytes),
-  1 < order <= 2 ^ 256 -> (forall a, smul a pG = pO <-> a mod order = 0) -> (forall P Q, pt_eqb P Q = true <-> P = Q) ->
-  (forall P, P <> pO -> length (sec P) = 33%nat) -> (forall P, P <> pO -> exists b r, sec P = b :: r /\ b <> x00) ->
-  (forall P, P <> pO -> unsec (sec P) = Ret P) -> (forall c b, b58dec c (b58enc c b) = Some b) ->
-  forall r (nd : node pt) (ap : bool),
-  In r bip_prefix_table -> wf_node pt pO smul pG order nd -> ser_ok pt nd -> (ap = true -> nd_secret pt nd <> None) ->
-  exists text, hwif pt sec b58enc (row_net r) nd ap = Ret text /\
-               parse_hd pt pO smul pG order pt_eqb unsec b58dec (row_net r) text = Ret (Some (shown pt nd ap)).
-
-(* refuted: on GRS / GRSRT / TGRS the bip49 and bip84 printers use the double-SHA256 checksum, the parser the groestl
-   checksum (known finding grs-bip49-bip84-checksum); witness: a toy group and two toy codecs that do not validate each
-   other's checksums *)
-Theorem C09_text_roundtrip_refuted : ~ C09_text_roundtrip_statement.
-Proof.
-  exact (fun H =>
-    match H bool false Toy.smul true 2 Bool.eqb Toy.sec Toy.unsec Toy.b58enc Toy.b58dec
-            Toy.order_range Toy.smul_zero Toy.pt_eqb_spec Toy.sec_len Toy.sec_head Toy.unsec_sec Toy.b58_roundtrip
-            bad_row Toy.root true (proj1 bad_row_in) Toy.root_wf toy_root_ser_ok (fun _ E => ltac:(discriminate E))
-    with ex_intro _ text (conj H1 H2) =>
-      match toy_text_fails with ex_intro _ text' (conj T1 T2) =>
-        ltac:(rewrite T1 in H1; injection H1 as <-; rewrite T2 in H2; discriminate H2)
-      end
-    end).
-Qed.
-Theorem C09_mismatching_rows :
-  map row_name mismatch_rows =      (* mismatch_rows = filter (fun r => codec_mismatch (row_net r)) bip_prefix_table *)
-  [("GRS", 49%N); ("GRS", 84%N); ("GRSRT", 49%N); ("GRSRT", 84%N); ("TGRS", 49%N); ("TGRS", 84%N)]%string.
-Proof. exact mismatch_rows_are. Qed.
+(* no row of the table has a printer and a parser with different checksum functions *)
+Theorem C09_no_mismatching_rows : mismatch_rows = [].
+Proof. exact mismatch_rows_none. Qed.
 
 (* ---- the commutation statement WITHOUT the hypothesis on I_L is false (abstract HMAC) ---- *)
 Definition C09_commute_unconditional : Prop :=
@@ -327,7 +298,7 @@ Print Assumptions C09_hardened_refused_on_public.
 Print Assumptions C09_metadata.
 Print Assumptions C09_table_rows_ok.
 Print Assumptions C09_serialize_roundtrip.
-Print Assumptions C09_text_roundtrip_partial.
+Print Assumptions C09_text_roundtrip.
 Print Assumptions C09_cache_transparent.
 Print Assumptions C09_root_calls_not_skipped.
 Print Assumptions C09_path_spellings.
@@ -337,7 +308,6 @@ Print Assumptions C09_path_element.
 Print Assumptions C09_range_expansion.
 Print Assumptions C09_product_is_all_choices.
 Print Assumptions C09_range_members.
-Print Assumptions C09_text_roundtrip_refuted.
-Print Assumptions C09_mismatching_rows.
+Print Assumptions C09_no_mismatching_rows.
 Print Assumptions C09_commute_needs_IL_lt_n.
 Print Assumptions C09_hypotheses_satisfiable.
